@@ -56,6 +56,9 @@ var (
 
 func TestMain(m *testing.M) {
 	glue.SilenceKlog()
+	if os.Getenv("VERIF_C12_CHILD") == "noregistry" {
+		os.Exit(childNoRegistry()) // before anything loads the registry
+	}
 	for _, f := range glue.RegistryFields() {
 		if f.Name == "sourceIPv4Address" || f.Name == "octetDeltaCount" || (f.Name == "sourcePodName" && f.Ent == 56506) {
 			fields = append(fields, f)
@@ -74,6 +77,9 @@ func TestMain(m *testing.M) {
 		}
 		if rp.Phase == "shared_domain" || rp.Phase == "race_shared_domain" {
 			ev.RunReplay(rp, runShared)
+		}
+		if rp.Phase == "no_registry" {
+			ev.RunReplay(rp, runNoRegistry)
 		}
 		if rp.Phase == "link_local" {
 			ev.RunReplay(rp, runLinkLocal)
@@ -1202,6 +1208,14 @@ func TestC12(t *testing.T) {
 				rec.Violation("link_local", proto, f.Msg)
 				t.Fatalf("%s", f.Msg)
 			}
+		}
+	}
+	if ev.Shard() <= 1 {
+		f := runNoRegistry(0)
+		rec.Case(ev.Hash([]any{"no_registry"}), true, "process_that_never_loaded_the_registry")
+		if f != nil {
+			rec.Violation("no_registry", 0, f.Msg)
+			t.Fatalf("%s", f.Msg)
 		}
 	}
 	if ev.Shard() <= 1 {
